@@ -418,7 +418,12 @@ def get_ast_term(t):
 
                 arg_ast = helper(t.arg, bd_vars)
                 arg_prior, arg_type = get_priority_pair(t.arg)
-                if arg_prior < op_data.priority or arg_type == FUN_APPL:
+                if arg_type == UNARY:
+                    # Prefix operators nest without brackets only in the
+                    # order given by the grammar (~ - UN INT).
+                    if arg_prior < op_data.priority:
+                        arg_ast = Bracket(arg_ast)
+                elif arg_prior < 95 or arg_type == FUN_APPL:
                     arg_ast = Bracket(arg_ast)
 
                 return UnaryOp(op_ast, arg_ast, t.get_type())
